@@ -331,13 +331,14 @@ func genJSON(t *rapid.T, depth int) string {
 		}
 		return "[" + strings.Join(parts, ",") + "]"
 	case c == 2:
-		return rapid.SampledFrom([]string{`"a"`, `""`, `"测试"`, `"a\nb"`, `"é"`, `"x y"`, `"\\"`}).Draw(t, "jstr")
+		return rapid.SampledFrom([]string{`"a"`, `""`, `"测试"`, `"a\nb"`, `"é"`, `"x y"`, `"\\"`, `"\ud800"`, `"\u0000"`, `"\/"`}).Draw(t, "jstr")
 	case c == 3:
-		return rapid.SampledFrom([]string{"0", "-0", "1", "-12", "1.5", "1e3", "1E-2", "0.001", "12345678901234567890"}).Draw(t, "jnum")
+		return rapid.SampledFrom([]string{"0", "-0", "1", "-12", "1.5", "1e3", "1E-2", "0.001", "12345678901234567890",
+			"1e999", "-1E+400", "1e-999", strings.Repeat("9", 400), "-" + strings.Repeat("7", 330) + ".5"}).Draw(t, "jnum") // (number literals beyond any machine type are numbers all the same)
 	case c == 4:
 		return rapid.SampledFrom([]string{"true", "false", "null"}).Draw(t, "jlit")
 	}
-	return rapid.SampledFrom([]string{`{"a":1}`, `[1,2]`, `{"a":{"b":[true,null]}}`, ` {"k" : "v"} `, "[]", "{}"}).Draw(t, "jdoc")
+	return rapid.SampledFrom([]string{`{"a":1}`, `[1,2]`, `{"a":{"b":[true,null]}}`, ` {"k" : "v"} `, "[]", "{}", `{"a":1,"a":2}`, `{"":0}`, `[1e999]`, `{"n":-1E+400}`}).Draw(t, "jdoc")
 }
 
 var jsonNearMisses = []string{`{"a":1,}`, `{a:1}`, `{'a':1}`, `[1,2`, `01`, `1.`, `.5`, `+1`, `"a`, `tru`, `{"a" 1}`, `[1 2]`, `{"a":1}{}`, "\"a\tb\"", `"\x"`, `nul`, `-`, `1e`, `[,]`, `{"a":}`}
